@@ -269,24 +269,62 @@ Fixpoint fail_before_sync (steps : list rstep) : bool :=
   | _ :: t => fail_before_sync t
   end.
 
-(* mutations issued before the first cancel *)
-Fixpoint live_muts (steps : list rstep) : list mutation :=
+(* Statuses an always-running watch must report for [id]: its state when the
+   watch starts, then one per mutation (NotFound for a delete) -- except inside
+   a watch gap of its kind (between [SBreak g] and [SRelist g]), where nothing is
+   reported until the re-list, which must report the FINAL state once: the
+   status of the final version if the object exists (unchanged objects are
+   reported again within the first resync period), NotFound if it is gone and
+   was known at the break, nothing if it neither was known nor exists.  Stops at the first cancel /
+   fatal failure.  Written from the property, independently of Reporter.v. *)
+Record xstate := mkX {
+  x_cur : option status;     (* current state of id in the cluster *)
+  x_gap : bool;              (* the watch of its kind is broken *)
+  x_touched : bool;          (* id changed since the break *)
+  x_known : bool;            (* id existed at the break *)
+  x_out : list status
+}.
+
+Fixpoint expect_steps (id : oid) (x : xstate) (steps : list rstep) : list status :=
   match steps with
-  | [] => []
-  | SMut m :: t => m :: live_muts t
-  | SCancel :: _ => []
-  | SFail :: _ => []
-  | _ :: t => live_muts t
+  | [] => x_out x
+  | SCancel :: _ | SFail :: _ => x_out x
+  | SBreak g :: t =>
+      if Nat.eqb g (o_gk id) && negb (x_gap x)
+      then expect_steps id (mkX (x_cur x) true false (match x_cur x with Some _ => true | None => false end) (x_out x)) t
+      else expect_steps id x t
+  | SRelist g :: t =>
+      if Nat.eqb g (o_gk id) && x_gap x
+      then let out := match x_cur x with
+                      | Some s => x_out x ++ [s]     (* listed: reported (again) with its final version *)
+                      | None => if x_touched x && x_known x then x_out x ++ [SNotFound] else x_out x
+                      end in
+           expect_steps id (mkX (x_cur x) false false false out) t
+      else expect_steps id x t
+  | SMut m :: t =>
+      if oid_eqb (mut_id m) id
+      then match m with
+           | MAdd _ p | MUpdate _ p =>
+               if x_gap x then expect_steps id (mkX (Some (p_status p)) true true (x_known x) (x_out x)) t
+               else expect_steps id (mkX (Some (p_status p)) false false false
+                                         (if p_slow p then x_out x else x_out x ++ [p_status p])) t
+           | MDelete _ =>
+               match x_cur x with
+               | None => expect_steps id x t
+               | Some _ =>
+                   if x_gap x then expect_steps id (mkX None true true (x_known x) (x_out x)) t
+                   else expect_steps id (mkX None false false false (x_out x ++ [SNotFound])) t
+               end
+           end
+      else expect_steps id x t
+  | _ :: t => expect_steps id x t
   end.
 
-(* statuses an always-running watch must report for [id]: its state when the
-   watch starts, then one per mutation (NotFound for a delete) *)
 Definition expected_statuses (c : rcase) (id : oid) : list status :=
-  match lookup (cluster_of (rc_pre c)) id with Some p => [p_status p] | None => [] end ++
-  flat_map (fun m => match m with
-                     | MAdd k p | MUpdate k p => if oid_eqb k id && negb (p_slow p) then [p_status p] else []
-                     | MDelete k => if oid_eqb k id then [SNotFound] else []
-                     end) (live_muts (rc_steps c)).
+  match lookup (cluster_of (rc_pre c)) id with
+  | Some p => expect_steps id (mkX (Some (p_status p)) false false false [p_status p]) (rc_steps c)
+  | None => expect_steps id (mkX None false false false []) (rc_steps c)
+  end.
 
 (* ids whose watch provably runs from start to cancel: a kind served without a
    CRD, and -- in namespace scope -- a namespace whose Namespace object is not
